@@ -59,11 +59,13 @@ type slVar struct {
 	reassign bool
 	declPos  token.Pos
 	nonneg   bool // an int variable that cannot be negative (a loop index)
+	wrapped  bool // an optional parameter before its nil test: an `Option` value
 }
 
 type slParam struct {
-	name string
-	kind slKind
+	name     string
+	kind     slKind
+	optional bool // a pointer parameter the function tests against nil: an `Option`
 }
 
 type slSum struct {
@@ -98,19 +100,20 @@ type slGen struct {
 }
 
 type slFn struct {
-	g        *slGen
-	sum      *slSum
-	vars     map[types.Object]*slVar
-	classes  map[int]map[int]bool // class -> parameter indices whose memory it may be
-	next     int
-	tmp      int
-	lines    *[]string
-	ind      string
-	paramVar []*slVar
-	usesH    bool
-	touched  map[*slVar]bool
-	loops    int
-	inIndex  int // >0 while translating an index or slice bound: a negative value there is a panic
+	g         *slGen
+	sum       *slSum
+	vars      map[types.Object]*slVar
+	classes   map[int]map[int]bool // class -> parameter indices whose memory it may be
+	next      int
+	tmp       int
+	lines     *[]string
+	ind       string
+	paramVar  []*slVar
+	usesH     bool
+	touched   map[*slVar]bool
+	loops     int
+	inIndex   int // >0 while translating an index or slice bound: a negative value there is a panic
+	inNilTest bool
 }
 
 func slKindOf(t types.Type) (slKind, bool) {
@@ -282,6 +285,9 @@ func (f *slFn) lookup(id *ast.Ident) *slVar {
 	if v, ok := f.vars[obj]; ok {
 		if f.touched != nil {
 			f.touched[v] = true
+		}
+		if v.wrapped && !f.inNilTest {
+			f.fail("use of %s before its nil test", v.name)
 		}
 		return v
 	}
@@ -705,6 +711,52 @@ func (f *slFn) opaqueExpr(e ast.Expr) (string, int, slKind) {
 				f.sum.usesB = true
 				return fmt.Sprintf("(B.hashToField %s)", arr), -1, kElem
 			}
+			if fn, ok := f.g.info.Uses[sel.Sel].(*types.Func); ok && strings.HasPrefix(fn.FullName(), "(*"+modPath+".Element).") {
+				switch fn.Name() {
+				case "Double", "Identity":
+					rv := f.baseVar(sel.X)
+					if rv == nil || rv.kind != kPoint || len(x.Args) != 0 {
+						f.fail("receiver of %s is not a variable", fn.Name())
+					}
+					if !sameInts(f.ptrRet(fn), []int{0}) {
+						f.fail("%s no longer returns its receiver only", fn.Name())
+					}
+					f.sum.usesF = true
+					f.write(rv, false, fn.Name())
+					if fn.Name() == "Double" {
+						f.emit("let %s := GenElementAPI.double F %s", rv.name, rv.name)
+					} else {
+						f.emit("let %s := GenElementAPI.identity F", rv.name)
+					}
+					return rv.name, rv.class, kPoint
+				case "set":
+					rv := f.baseVar(sel.X)
+					if rv == nil || rv.kind != kPoint || len(x.Args) != 1 {
+						f.fail("receiver of set is not a variable")
+					}
+					if !sameInts(f.ptrRet(fn), []int{0}) {
+						f.fail("set no longer returns its receiver only")
+					}
+					arg, _, ak := f.opaqueExpr(x.Args[0])
+					if ak != kPoint {
+						f.fail("argument of set")
+					}
+					f.sum.usesF = true
+					f.write(rv, false, "set")
+					f.emit("let %s := GenElementAPI.setRaw F %s", rv.name, slAtom(arg))
+					return rv.name, rv.class, kPoint
+				case "copy":
+					if len(f.ptrRet(fn)) != 0 || len(x.Args) != 0 {
+						f.fail("copy may return its receiver")
+					}
+					r, _, rk := f.opaqueExpr(sel.X)
+					if rk != kPoint {
+						f.fail("receiver of copy")
+					}
+					f.sum.usesF = true
+					return fmt.Sprintf("(GenElementAPI.copyRaw F %s)", slAtom(r)), f.newClass(), kPoint
+				}
+			}
 			// q0.Add(q1)
 			if fn, ok := f.g.info.Uses[sel.Sel].(*types.Func); ok && fn.FullName() == "(*"+modPath+".Element).Add" && len(x.Args) == 1 {
 				rv := f.baseVar(sel.X)
@@ -764,7 +816,21 @@ func (f *slFn) opaqueExpr(e ast.Expr) (string, int, slKind) {
 					if len(x.Args) == 0 {
 						return "(⟨0, 0, 0, 0⟩ : L4)", -1, kScalar
 					}
+				case "newElement":
+					if len(f.ptrRet(fn)) != 0 || len(x.Args) != 0 {
+						f.fail("newElement")
+					}
+					f.sum.usesF = true
+					return "(GenElementAPI.newElement F)", f.newClass(), kPoint
 				}
+			}
+		}
+	}
+	if c, ok := e.(*ast.CallExpr); ok {
+		if fn, _, _, _ := f.resolveCallee(c); fn != nil {
+			r, cl, k := f.call(c)
+			if k == kElem || k == kPoint || k == kScalar {
+				return r, cl, k
 			}
 		}
 	}
@@ -961,8 +1027,21 @@ func (f *slFn) call(x *ast.CallExpr) (string, int, slKind) {
 			args = append(args, v.name)
 			argVars = append(argVars, v)
 			argClass = append(argClass, -1)
+		case kPoint, kElem:
+			e, c, _ := f.opaqueExpr(a)
+			v := f.baseVar(a)
+			if v == nil && hasInt(s.writes, i) {
+				v = f.tmpVar(p.kind, c, e)
+				e = v.name
+			}
+			args = append(args, slAtom(e))
+			argVars = append(argVars, v)
+			argClass = append(argClass, c)
 		default:
 			f.fail("argument kind")
+		}
+		if p.optional {
+			args[len(args)-1] = "(some " + args[len(args)-1] + ")"
 		}
 	}
 	var outs []string
@@ -1023,6 +1102,14 @@ func (f *slFn) call(x *ast.CallExpr) (string, int, slKind) {
 }
 
 func (f *slFn) cond(e ast.Expr) string {
+	if c, ok := e.(*ast.CallExpr); ok && len(c.Args) == 0 {
+		if sel, ok := c.Fun.(*ast.SelectorExpr); ok && (sel.Sel.Name == "IsOne" || sel.Sel.Name == "IsZero") {
+			if k, ok := slKindOf(f.g.info.TypeOf(sel.X)); ok && k == kScalar {
+				v, _, _ := f.limbExpr(sel.X)
+				return fmt.Sprintf("GenScalarAPI.%s %s = true", lowerFirst(sel.Sel.Name), slAtom(v))
+			}
+		}
+	}
 	switch x := e.(type) {
 	case *ast.ParenExpr:
 		return "(" + f.cond(x.X) + ")"
@@ -1103,6 +1190,12 @@ func (f *slFn) assigned(stmts []ast.Stmt, from token.Pos) []*slVar {
 					if id, ok := sel.X.(*ast.Ident); ok {
 						if v := f.lookup(id); v != nil && v.kind == kHash && (sel.Sel.Name == "Write" || sel.Sel.Name == "Reset") {
 							mark(id)
+						}
+						if v := f.lookup(id); v != nil && v.kind == kPoint {
+							switch sel.Sel.Name {
+							case "Add", "Double", "Identity", "set":
+								mark(id)
+							}
 						}
 					}
 					if selName(sel) == "binary.BigEndian.PutUint16" && len(x.Args) == 2 {
@@ -1491,8 +1584,12 @@ func (f *slFn) stmt(s ast.Stmt) {
 				return
 			}
 			if selInfo := f.g.info.Selections[sel]; selInfo != nil && selInfo.Kind() == types.MethodVal {
-				if _, ok := slKindOf(f.g.info.TypeOf(sel.X)); ok {
-					f.call(c)
+				if k, ok := slKindOf(f.g.info.TypeOf(sel.X)); ok {
+					if k == kPoint {
+						f.opaqueExpr(c)
+					} else {
+						f.call(c)
+					}
 					return
 				}
 			}
@@ -1627,8 +1724,8 @@ func (f *slFn) loopBody(body []ast.Stmt, pos token.Pos, bind func() *slVar, inde
 	}
 	before := f.snapshotPartition(outerVars)
 	outer, oldInd := f.lines, f.ind
-	oldTouched, oldH := f.touched, f.usesH
-	f.touched, f.usesH = map[*slVar]bool{}, false
+	oldTouched, oldH, oldF := f.touched, f.usesH, f.sum.usesF
+	f.touched, f.usesH, f.sum.usesF = map[*slVar]bool{}, false, false
 	var ls []string
 	f.lines = &ls
 	f.ind = "  "
@@ -1639,9 +1736,9 @@ func (f *slFn) loopBody(body []ast.Stmt, pos token.Pos, bind func() *slVar, inde
 	})
 	f.emit("pure %s", tupleOf(vs))
 	f.lines, f.ind = outer, oldInd
-	bodyH := f.usesH
+	bodyH, bodyF := f.usesH, f.sum.usesF
 	touched := f.touched
-	f.touched, f.usesH = oldTouched, oldH || bodyH
+	f.touched, f.usesH, f.sum.usesF = oldTouched, oldH || bodyH, oldF || bodyF
 	if after := f.snapshotPartition(outerVars); after != before {
 		f.fail("the sharing between slices changes across loop iterations (%s -> %s)", before, after)
 	}
@@ -1672,6 +1769,19 @@ func (f *slFn) loopBody(body []ast.Stmt, pos token.Pos, bind func() *slVar, inde
 	var b strings.Builder
 	fmt.Fprintf(&b, "/-- body of loop %d of `%s` -/\ndef %s", f.loops, f.sum.goName, name)
 	call := name
+	needAlpha := bodyF
+	for _, v := range append(append([]*slVar{}, vs...), free...) {
+		if v.kind == kPoint || v.kind == kElem {
+			needAlpha = true
+		}
+	}
+	if needAlpha {
+		b.WriteString(" {α : Type}")
+	}
+	if bodyF {
+		b.WriteString(" (F : FieldOps α)")
+		call += " F"
+	}
 	if bodyH {
 		b.WriteString(" (H : List Nat → List Nat)")
 		call += " H"
@@ -1696,6 +1806,10 @@ func (f *slFn) forStmt(x *ast.ForStmt) {
 	init, ok := x.Init.(*ast.AssignStmt)
 	cond, ok2 := x.Cond.(*ast.BinaryExpr)
 	post, ok3 := x.Post.(*ast.IncDecStmt)
+	if ok && ok2 && ok3 && init.Tok == token.DEFINE && len(init.Lhs) == 1 && post.Tok == token.DEC && cond.Op == token.GEQ {
+		f.forDown(x, init, cond, post)
+		return
+	}
 	if !ok || !ok2 || !ok3 || init.Tok != token.DEFINE || len(init.Lhs) != 1 || post.Tok != token.INC || (cond.Op != token.LEQ && cond.Op != token.LSS) {
 		f.fail("loop form")
 	}
@@ -1751,6 +1865,47 @@ func (f *slFn) forStmt(x *ast.ForStmt) {
 		prim = "Prim.forBelow"
 	}
 	f.emit("let %s ← %s %s %s %s %s", patOf(vs), prim, slAtom(a), slAtom(b), tupleOf(vs), fnName)
+}
+
+// forDown: for i := a; i >= b; i-- { body } on a signed counter with constant bounds
+func (f *slFn) forDown(x *ast.ForStmt, init *ast.AssignStmt, cond *ast.BinaryExpr, post *ast.IncDecStmt) {
+	iv, okI := init.Lhs[0].(*ast.Ident)
+	cv, okC := cond.X.(*ast.Ident)
+	pv, okP := post.X.(*ast.Ident)
+	if !okI || !okC || !okP || f.g.info.Uses[cv] != f.g.info.Defs[iv] || f.g.info.Uses[pv] != f.g.info.Defs[iv] {
+		f.fail("loop form")
+	}
+	if _, u := bitsOf(f.g.info.TypeOf(iv)); u {
+		f.fail("downward loop on an unsigned counter")
+	}
+	a, okA := f.constVal(init.Rhs[0])
+	b, okB := f.constVal(cond.Y)
+	if !okA || !okB {
+		f.fail("downward loop with non-constant bounds")
+	}
+	fnName, vs := f.loopBody(x.Body.List, x.Pos(), func() *slVar {
+		v := f.declare(iv, kNat, -1)
+		v.nonneg = true
+		return v
+	}, true)
+	ast.Inspect(x.Body, func(n ast.Node) bool {
+		switch y := n.(type) {
+		case *ast.AssignStmt:
+			for _, l := range y.Lhs {
+				if id, ok := l.(*ast.Ident); ok && f.g.info.Uses[id] == f.g.info.Defs[iv] {
+					f.fail("loop counter assigned in the body")
+				}
+			}
+		case *ast.IncDecStmt:
+			if id, ok := y.X.(*ast.Ident); ok && f.g.info.Uses[id] == f.g.info.Defs[iv] {
+				f.fail("loop counter assigned in the body")
+			}
+		case *ast.BranchStmt:
+			f.fail("break/continue")
+		}
+		return true
+	})
+	f.emit("let %s ← Prim.forDownTo %s %s %s %s", patOf(vs), a, b, tupleOf(vs), fnName)
 }
 
 func (f *slFn) rangeStmt(x *ast.RangeStmt) {
@@ -1842,6 +1997,27 @@ func (f *slFn) restoreState(st slState) {
 	}
 }
 
+// nilTest: `p == nil` on an optional parameter that has not been tested yet
+func (f *slFn) nilTest(e ast.Expr) *slVar {
+	be, ok := e.(*ast.BinaryExpr)
+	if !ok || be.Op != token.EQL {
+		return nil
+	}
+	for _, pr := range [][2]ast.Expr{{be.X, be.Y}, {be.Y, be.X}} {
+		a, okA := pr[0].(*ast.Ident)
+		b, okB := pr[1].(*ast.Ident)
+		if okA && okB && b.Name == "nil" {
+			f.inNilTest = true
+			v := f.lookup(a)
+			f.inNilTest = false
+			if v != nil && v.wrapped {
+				return v
+			}
+		}
+	}
+	return nil
+}
+
 func endsInReturn(list []ast.Stmt) bool {
 	if len(list) == 0 {
 		return false
@@ -1884,6 +2060,21 @@ func (f *slFn) tailBlock(stmts []ast.Stmt, finish func([]ast.Expr)) {
 			if containsReturn(x) {
 				if x.Else != nil || !endsInReturn(x.Body.List) {
 					f.fail("return inside an if that is not a guard")
+				}
+				if nv := f.nilTest(x.Cond); nv != nil && x.Init == nil {
+					st0 := f.saveState()
+					thenL := f.capture(func() { f.tailBlock(x.Body.List, finish) })
+					f.restoreState(st0)
+					nv.wrapped = false
+					elseL := f.capture(func() { f.tailBlock(stmts[i+1:], finish) })
+					f.emit("match %s with", nv.name)
+					f.emit("| none => (do")
+					*f.lines = append(*f.lines, thenL...)
+					(*f.lines)[len(*f.lines)-1] += ")"
+					f.emit("| some %s => (do", nv.name)
+					*f.lines = append(*f.lines, elseL...)
+					(*f.lines)[len(*f.lines)-1] += ")"
+					return
 				}
 				if x.Init != nil {
 					f.stmt(x.Init)
@@ -2021,6 +2212,20 @@ func (f *slFn) strExpr(e ast.Expr) string {
 	return ""
 }
 
+// leanName: the Lean name of a function; an unexported function with an exported twin gets the suffix `Raw`
+func (g *slGen) leanName(key string) string {
+	recv, name := "", key
+	if i := strings.Index(key, "."); i >= 0 {
+		recv, name = key[:i+1], key[i+1:]
+	}
+	if name != "" && strings.ToLower(name[:1]) == name[:1] {
+		if _, twin := g.decls[recv+strings.ToUpper(name[:1])+name[1:]]; twin {
+			return leanFnName(key) + "Raw"
+		}
+	}
+	return leanFnName(key)
+}
+
 func (g *slGen) translate(name string) *slSum {
 	if s, ok := g.sums[name]; ok {
 		if g.busy[name] {
@@ -2028,7 +2233,7 @@ func (g *slGen) translate(name string) *slSum {
 		}
 		return s
 	}
-	s := &slSum{goName: name, leanName: leanFnName(name), retParam: -1}
+	s := &slSum{goName: name, leanName: g.leanName(name), retParam: -1}
 	g.sums[name] = s
 	g.busy[name] = true
 	defer func() { g.busy[name] = false }()
@@ -2082,7 +2287,24 @@ func (g *slGen) fn(s *slSum, fd *ast.FuncDecl) {
 			v.param = idx
 			v.declPos = fd.Pos()
 			f.paramVar = append(f.paramVar, v)
-			s.params = append(s.params, slParam{v.name, k})
+			opt := false
+			if _, isPtr := t.Underlying().(*types.Pointer); isPtr {
+				obj := g.info.Defs[id]
+				ast.Inspect(fd.Body, func(n ast.Node) bool {
+					if be, ok := n.(*ast.BinaryExpr); ok && (be.Op == token.EQL || be.Op == token.NEQ) {
+						for _, pr := range [][2]ast.Expr{{be.X, be.Y}, {be.Y, be.X}} {
+							a, okA := pr[0].(*ast.Ident)
+							b, okB := pr[1].(*ast.Ident)
+							if okA && okB && b.Name == "nil" && g.info.Uses[a] == obj {
+								opt = true
+							}
+						}
+					}
+					return true
+				})
+			}
+			v.wrapped = opt
+			s.params = append(s.params, slParam{v.name, k, opt})
 			idx++
 		}
 	}
@@ -2165,9 +2387,25 @@ func (g *slGen) fn(s *slSum, fd *ast.FuncDecl) {
 				resExpr = append(resExpr, res)
 				kinds = append(kinds, resKinds[i])
 			default:
-				res, _, k := f.opaqueExpr(re)
+				res, c, k := f.opaqueExpr(re)
 				if k != resKinds[i] {
 					panic("kind of the result")
+				}
+				if k == kPoint && resPtr[i] {
+					var pv *slVar
+					for _, q := range f.paramVar {
+						if q.kind == kPoint && q.name == res && q.class == c && f.classes[c][q.param] && !q.reassign {
+							pv = q
+						}
+					}
+					if pv != nil {
+						if retParam >= 0 {
+							panic("two parameters returned")
+						}
+						retParam = pv.param
+						f.addWrite(pv.param)
+						continue
+					}
 				}
 				resExpr = append(resExpr, res)
 				kinds = append(kinds, k)
@@ -2240,7 +2478,11 @@ func (g *slGen) fn(s *slSum, fd *ast.FuncDecl) {
 		b.WriteString(" (H : List Nat → List Nat)")
 	}
 	for _, p := range s.params {
-		fmt.Fprintf(&b, " (%s : %s)", p.name, leanKind(p.kind))
+		if p.optional {
+			fmt.Fprintf(&b, " (%s : Option %s)", p.name, slAtom(leanKind(p.kind)))
+		} else {
+			fmt.Fprintf(&b, " (%s : %s)", p.name, leanKind(p.kind))
+		}
 	}
 	rt := "(" + strings.Join(outT, " × ") + ")"
 	fmt.Fprintf(&b, " : Option %s := do\n", rt)
@@ -2381,6 +2623,11 @@ func genBytesMode(outDir string) {
 	for _, r := range codecRoots {
 		g.translate(r)
 	}
+	nCodec := len(g.order)
+	mulRoots := []string{"Element.multiply", "Element.Multiply"}
+	for _, r := range mulRoots {
+		g.translate(r)
+	}
 	if len(gs.order) != nScalar {
 		// a function of internal/scalar first reached from the root package: it belongs to ScalarBytes.lean as well
 		scalarRoots = append(scalarRoots, gs.order[nScalar:]...)
@@ -2396,7 +2643,10 @@ func genBytesMode(outDir string) {
 		g.order[nXmd:nGroup], groupRoots)
 	g.write(filepath.Join(outDir, "ScalarCodec.lean"), "GenScalarCodec", "import Secp.Spec.Bytes\nimport Secp.Gen.ScalarBytes\n",
 		"/-! `Encode`, `Decode`, `Hex`, `DecodeHex`, `MarshalBinary`, `UnmarshalBinary` of `scalar.go`. An `error` is `none` (nil) or\nthe name of the package's error variable; `encoding/hex` is `Spec.toHex` / `Prim.hexDecodeString`. -/\n", "",
-		g.order[nGroup:], codecRoots)
+		g.order[nGroup:nCodec], codecRoots)
+	g.write(filepath.Join(outDir, "ElementMul.lean"), "GenElementMul", "import Secp.Gen.ScalarCodec\nimport Secp.Gen.ScalarAPI\nimport Secp.Gen.ElementAPI\n",
+		"/-! `Multiply` and `multiply` of `element.go`: the nil test, the `IsOne` shortcut, the bit expansion, the 256 iterations of the\nladder over the regenerated `Add`/`Double`, the final `set`. -/\n", "open GenScalarCodec\n",
+		g.order[nCodec:], mulRoots)
 }
 
 func quoteJoin(xs []string) string {
